@@ -538,6 +538,52 @@ theorem C07_filter_reparse (env : Env) (he : EnvOk env) (r : RuleData) (f v opc 
   · unfold addFilter
     simp only [ho, hf, hexcl, Bool.false_eq_true, if_false, hvr, Option.map_some]
 
+/-- String-valued filters and keys are printed verbatim (`name ++ operator ++ string`), so for
+them the text half is: the token splits into the same three parts (when the string does not start
+with '='), the names look up the same codes, and therefore addFilter on those parts does exactly
+what it did on the original filter — same triple (value = length) and same string appended. -/
+theorem C07_string_filter_reparse (env : Env) (r r' : RuleData) (f opc : Nat) (lhs0 op0 lhs opS : Bytes)
+    (c : Nat) (tl : Bytes)
+    (hlhs : revLookup LA.Gen.RuleTables.fieldsTable f = some lhs)
+    (hops : revLookup LA.Gen.RuleTables.operatorsTable opc = some opS)
+    (h0f : lookupB LA.Gen.RuleTables.fieldsTable lhs0 = some f)
+    (h0o : lookupB LA.Gen.RuleTables.operatorsTable op0 = some opc)
+    (hbuilt : addFilter env r lhs0 op0 (c :: tl) = some r') (hc : c ≠ 61) :
+    matchFilter (lhs ++ opS ++ c :: tl) = some (lhs, opS, c :: tl) ∧
+    addFilter env r lhs opS (c :: tl) = some r' := by
+  have nd1 : (LA.Gen.RuleTables.fieldsTable.map (·.1)).Nodup := by decide +kernel
+  have nd2 : (LA.Gen.RuleTables.operatorsTable.map (·.1)).Nodup := by decide +kernel
+  have names_ok : LA.Gen.RuleTables.fieldsTable.all (fun p => !p.1.isEmpty && p.1.all isReWord) = true := by decide +kernel
+  have ops_ok : LA.Gen.RuleTables.operatorsTable.all (fun p => filterOps.contains p.1) = true := by decide +kernel
+  have hf := lookupB_of_revLookup nd1 hlhs
+  have ho := lookupB_of_revLookup nd2 hops
+  have hlhs_ok : lhs ≠ [] ∧ ∀ b ∈ lhs, isReWord b = true := by
+    unfold revLookup at hlhs
+    cases hfd : LA.Gen.RuleTables.fieldsTable.find? (fun p => p.2 == f) with
+    | none => rw [hfd] at hlhs; simp at hlhs
+    | some q =>
+      rw [hfd] at hlhs
+      simp only [Option.map_some, Option.some.injEq] at hlhs
+      have := List.all_eq_true.mp names_ok q (List.mem_of_find?_eq_some hfd)
+      simp only [Bool.and_eq_true, Bool.not_eq_true', List.all_eq_true] at this
+      rw [hlhs] at this
+      exact ⟨by intro h; simp [h] at this, this.2⟩
+  have hop_mem : opS ∈ filterOps := by
+    unfold revLookup at hops
+    cases hfd : LA.Gen.RuleTables.operatorsTable.find? (fun p => p.2 == opc) with
+    | none => rw [hfd] at hops; simp at hops
+    | some q =>
+      rw [hfd] at hops
+      simp only [Option.map_some, Option.some.injEq] at hops
+      have := List.all_eq_true.mp ops_ok q (List.mem_of_find?_eq_some hfd)
+      rw [hops] at this
+      simpa using this
+  refine ⟨C07_filter_token_reparse lhs opS c tl hlhs_ok.1 hlhs_ok.2 hop_mem hc, ?_⟩
+  unfold addFilter at hbuilt ⊢
+  simp only [h0f, h0o] at hbuilt
+  simp only [hf, ho]
+  exact hbuilt
+
 /-- Wire round trip: the library's own decoder (fromWireFormat + fromAuditRuleData, the first half
 of ToCommandLine) inverts its encoder on everything rule.Build produces — list, action, every
 (field, value, operator) triple in order, every string, and the syscall set (as a set; listed
